@@ -52,7 +52,9 @@ def waiter_ops(beh):
     reserve = st.tuples(st.just('reserve'), wreq).map(list)
     release = st.tuples(st.just('release'), st.integers(0, 4)).map(list)
     # the 4th element: the caller changes its own dictionary right after registering (the manager must keep a copy)
-    register = st.tuples(st.just('register'), wreq, beh, st.sampled_from([False, False, True])).map(list)
+    # 5th element: the very same registration call made twice (same request, same callback object)
+    register = st.tuples(st.just('register'), wreq, beh, st.sampled_from([False, False, True]),
+                         st.sampled_from([False, False, False, True])).map(lambda t: list(t[:4]) + [t[4] and not t[3]])
     advance = st.tuples(st.just('advance'), st.sampled_from([0, 0, 1, 2.5])).map(list)
     return st.one_of(add, add, add, reserve, reserve, release, release, release, register, register, register,
                      register, advance, advance)
